@@ -31,6 +31,10 @@ pub open spec fn rp_create(b: Alloc, j: Option<u32>) -> Alloc {
     Alloc { c: rp_alloc(b.c, j).1, ids: b.ids.insert(rp_alloc(b.c, j).0) }
 }
 // one client command on the pair (runtime, replay-of-the-journal-so-far)
+// LINKED: that the two components ARE what the real code does is proved by the composition harnesses [C05.link.alloc_replay.step.*] /
+// [C05.link.alloc_replay.ustep.*]: runtime half in units/alloc_runtime/lemmas.rs (which repeats Cmd / Alloc / acked / rt_assigned / journalled_id /
+// rp_create / step / UCmd / max_of / ustep word for word: mirror edits there), replay half at the end of this file. Where the real code does
+// less than `!acked ==> s` (a refused create may move the runtime counter) see [C05.sim.carried.any_counter].
 pub open spec fn step(s: (Alloc, Alloc), cmd: Cmd, carried: bool) -> (Alloc, Alloc) {
     let (a, b) = s;
     if !acked(a, cmd) { s } else {
